@@ -97,6 +97,11 @@ func c09Stress(w *core.Worker, i int) {
 					// plain read first, then the change: the table must be read again under the exclusive lock
 					op.kind = "incsel"
 					prog = fmt.Sprintf("SELECT n FROM counter; UPDATE counter SET n = n + 1, m = m + 1; INSERT INTO log VALUES (%d, %d); SELECT n FROM counter;", c, s)
+				case k == 4 && s%4 == 3:
+					// a data-changing statement that matches no row is still the transaction's first data-changing statement: the
+					// table is held from there on, so what is read afterwards may be written back
+					op.kind = "incfuvar"
+					prog = fmt.Sprintf("%s VAR @v := (SELECT n FROM counter); UPDATE counter SET n = @v + 1, m = @v + 1; INSERT INTO log VALUES (%d, %d); SELECT n FROM counter;", []string{"UPDATE counter SET n = -1 WHERE id < 0;", "DELETE FROM counter WHERE id < 0;", "SELECT n FROM counter FOR UPDATE; DELETE FROM counter WHERE id < 0;"}[(s/4)%3], c, s)
 				case k == 4 && s%3 == 2:
 					// the table is named only in the second operand of a set operation under FOR UPDATE: it is held like the first
 					op.kind = "incfuvar"
@@ -304,7 +309,7 @@ type schedEvent struct {
 }
 
 var c09Scenarios = [][]string{
-	{"W", "W"}, {"W", "R"}, {"R", "W"}, {"Wfu", "W"}, {"W", "Wrb"}, {"Wfu", "R"}, {"W", "W", "R"}, {"R", "R", "W"}, {"Wsel", "W"}, {"Wfx", "W"}, {"Wfs", "W"}, {"Wun", "W"},
+	{"W", "W"}, {"W", "R"}, {"R", "W"}, {"Wfu", "W"}, {"W", "Wrb"}, {"Wfu", "R"}, {"W", "W", "R"}, {"R", "R", "W"}, {"Wsel", "W"}, {"Wfx", "W"}, {"Wfs", "W"}, {"Wun", "W"}, {"Wz", "W"},
 }
 
 func c09Prog(kind string) string {
@@ -321,6 +326,8 @@ func c09Prog(kind string) string {
 		return "VAR @v; SELECT @v := n FROM counter FOR UPDATE; EXECUTE 'VAR @x := 1;'; UPDATE counter SET n = @v + 1, m = @v + 1;"
 	case "Wun": // the table is named only in the second operand of a set operation under FOR UPDATE
 		return "SELECT id FROM aux WHERE id < 0 UNION ALL SELECT n FROM counter FOR UPDATE; VAR @v := (SELECT n FROM counter); UPDATE counter SET n = @v + 1, m = @v + 1;"
+	case "Wz": // an UPDATE that matches no row, then read and write back: the hold starts with the first statement
+		return "UPDATE counter SET n = -1 WHERE id < 0; VAR @v := (SELECT n FROM counter); UPDATE counter SET n = @v + 1, m = @v + 1;"
 	case "Wfs":
 		return "VAR @v; SELECT @v := n FROM counter FOR UPDATE; SOURCE `noop.sql`; UPDATE counter SET n = @v + 1, m = @v + 1;"
 	}
@@ -513,7 +520,7 @@ func runSchedule(w *core.Worker, scen []string, choose func(dec int, enabled []i
 		if ro.code != 0 {
 			viol(fmt.Sprintf("%s ended with exit code %d", ro.name, ro.code))
 		}
-		if (ro.kind == "W" || ro.kind == "Wfu" || ro.kind == "Wsel" || ro.kind == "Wfx" || ro.kind == "Wfs" || ro.kind == "Wun") && ro.code == 0 {
+		if (ro.kind == "W" || ro.kind == "Wfu" || ro.kind == "Wsel" || ro.kind == "Wfx" || ro.kind == "Wfs" || ro.kind == "Wun" || ro.kind == "Wz") && ro.code == 0 {
 			committed++
 		}
 		if ro.kind == "R" && ro.code == 0 {
